@@ -3,6 +3,8 @@ package main
 import (
 	"bufio"
 	"encoding/json"
+	"os/exec"
+	"strconv"
 	"fmt"
 	"os"
 	"path/filepath"
@@ -102,6 +104,44 @@ func sensitivity(names []string) int {
 		}
 	}
 	sort.Strings(names)
+	if par, _ := strconv.Atoi(os.Getenv("VERIF_PAR")); par > 1 && len(names) > 1 {
+		// several mutants at a time, each in its own process with a share of the cores
+		exe, _ := os.Executable()
+		lines := make([]string, len(names))
+		sem := make(chan struct{}, par)
+		var wg sync.WaitGroup
+		for i, name := range names {
+			wg.Add(1)
+			go func(i int, name string) {
+				defer wg.Done()
+				sem <- struct{}{}
+				defer func() { <-sem }()
+				cmd := exec.Command(exe, "sensitivity", name)
+				cmd.Env = append(os.Environ(), "VERIF_PAR=1", fmt.Sprintf("VERIF_WORKERS=%d", max(1, workersEnv()/par)))
+				b, _ := cmd.CombinedOutput()
+				for _, l := range strings.Split(string(b), "\n") {
+					if strings.HasPrefix(l, "sensitivity ") {
+						lines[i] = l
+					}
+				}
+				if lines[i] == "" {
+					lines[i] = fmt.Sprintf("sensitivity %-44s (no result) %s", name, tail(string(b), 300))
+				}
+				fmt.Println(lines[i])
+			}(i, name)
+		}
+		wg.Wait()
+		missed := 0
+		for _, l := range lines {
+			if strings.Contains(l, " MISSED") || strings.Contains(l, " exit2") || strings.Contains(l, "(no result)") {
+				missed++
+			}
+		}
+		if missed > 0 {
+			return 1
+		}
+		return 0
+	}
 	var err error
 	scratch, err = os.MkdirTemp("", "verif-sens-")
 	if err != nil {
